@@ -103,6 +103,11 @@ def run(ctx):
              U.phas(uh.node, "{'last_heartbeat': ___.utc_now_sec()}"),
              ctx.construct(uh),
         'a heartbeat does not set last_heartbeat to now', ctx.loc(uh))
+    r1.check(U.phas(uh.node, '___.filter(___.ActionExecution.id == %s)'
+                    '.update(___)' % uh.params[0]),
+             ctx.construct(uh, extra='the reported action only'),
+             'the heartbeat is not written to exactly the action execution '
+             'whose id was reported', ctx.loc(uh))
 
     # ---- R2 batch isolation ----------------------------------------------------
     r2 = ctx.rule('R2', 'one broken action does not stop the batch; every '
